@@ -17,19 +17,21 @@ import (
 
 // Plan selects bounds of one check.
 type Plan struct {
-	Property   string
-	Sides      []string
-	FullDepth  int // levels explored with the full alphabet
-	Depth      int // total depth (levels beyond FullDepth use the reduced alphabet)
-	Repeat     int
-	Budget     time.Duration
-	C17        bool
-	Chunk      int
-	MaxReport  int
-	OnlyOracle func(oracle string) bool // which oracles count for this property (others are recorded as foreign)
-	Alphabet   func(side string, reduced bool) []Desc
-	Classes    func(side string) []string
-	Workers    int
+	Property    string
+	Sides       []string
+	FullDepth   int // levels explored with the full alphabet
+	Depth       int // total depth (levels beyond FullDepth use the reduced alphabet)
+	Repeat      int
+	RepeatDepth int  // levels 1..RepeatDepth run the repeat family; deeper levels send every request once
+	ExpandAll   bool // false: beyond level 1 only the first state found per (state class, route, action) is expanded
+	Budget      time.Duration
+	C17         bool
+	Chunk       int
+	MaxReport   int
+	OnlyOracle  func(oracle string) bool // which oracles count for this property (others are recorded as foreign)
+	Alphabet    func(side string, reduced bool) []Desc
+	Classes     func(side string) []string
+	Workers     int
 }
 
 type stateNode struct {
@@ -47,6 +49,7 @@ type found struct {
 	desc     string
 	history  []string
 	req      *Req
+	prefReqs []*Req
 	state    string
 	classes  map[string]int
 	died     bool
@@ -80,6 +83,9 @@ type Coordinator struct {
 	samples                                                                                                              []interface{}
 	viol                                                                                                                 map[string]*found // by oracle|signature
 	violOrder                                                                                                            []string
+	repSeen                                                                                                              map[string]bool
+	notExpanded                                                                                                          int
+	transientWrites                                                                                                      int
 	exhaustive                                                                                                           bool
 	depthCompleted                                                                                                       int
 	detOK                                                                                                                int
@@ -99,7 +105,7 @@ func NewCoordinator(p *Plan) *Coordinator {
 		p.OnlyOracle = func(o string) bool { return !strings.HasPrefix(o, "c17rest") }
 	}
 	c := &Coordinator{plan: p, skipRepeat: map[string]bool{}, perClass: map[string]int{}, status: map[string]map[int]int{"R": {}, "C": {}}, obs: map[string]int{}, foreign: map[string]int{},
-		expectCount: map[string]int{}, bodyClasses: map[string]int{}, matrix: map[string]map[string]int{}, seen: map[string]bool{}, viol: map[string]*found{}, exhaustive: true, depthCompleted: -1}
+		expectCount: map[string]int{}, bodyClasses: map[string]int{}, matrix: map[string]map[string]int{}, seen: map[string]bool{}, repSeen: map[string]bool{}, viol: map[string]*found{}, exhaustive: true, depthCompleted: -1}
 	c.scratch = filepath.Join(os.TempDir(), fmt.Sprintf("verif-ee-%d", os.Getpid()))
 	os.RemoveAll(c.scratch)
 	os.MkdirAll(c.scratch, 0755)
@@ -150,7 +156,7 @@ func deathCause(log string) string {
 	if len(m) == 0 {
 		return "process-exit"
 	}
-	s := m[len(m)-1]
+	s := m[0]
 	s = strings.TrimPrefix(s, "fatal error: ")
 	s = strings.ReplaceAll(s, " ", "-")
 	if len(s) > 60 {
@@ -172,6 +178,7 @@ func (c *Coordinator) runUnit(j *unitJob) *unitOut {
 	}
 	c.mu.Unlock()
 	defer os.Remove(j.u.Journal)
+	defer os.Remove(j.u.Journal + ".stderr")
 	cfg, _ := json.Marshal(j.u)
 	done := make(chan *kernel.Response, 1)
 	c.pool.Submit(&kernel.Request{Cfg: cfg, Path: j.batch, Trace: j.trace}, func(r *kernel.Response) { done <- r })
@@ -180,6 +187,12 @@ func (c *Coordinator) runUnit(j *unitJob) *unitOut {
 	if r.Died {
 		out.died = true
 		out.log = r.Log
+		if b, err := os.ReadFile(j.u.Journal + ".stderr"); err == nil && len(b) > 0 {
+			if len(b) > 6000 {
+				b = append(b[:6000], []byte("\n…")...)
+			}
+			out.log = string(b)
+		}
 		f, err := os.Open(j.u.Journal)
 		if err != nil {
 			out.err = "worker died and left no journal: " + r.Err + "\n" + tailS(r.Log, 3000)
@@ -245,8 +258,15 @@ func (c *Coordinator) runBatch(st *stateNode, batch []string, fresh bool) ([]*Re
 	res := make([]*Result, len(batch))
 	off := 0
 	baseKey := ""
+	rep := c.plan.Repeat
+	if st.depth+1 > c.plan.RepeatDepth {
+		rep = 1
+	}
 	for off < len(batch) && !c.failed() {
-		j := &unitJob{u: Unit{Side: st.side, Class: st.class, Prefix: st.prefix, PrefixKey: st.key, Repeat: c.plan.Repeat, C17: c.plan.C17, Fresh: fresh}, batch: batch[off:]}
+		if time.Now().After(c.deadline) {
+			return res, baseKey // budget: the remaining requests stay nil
+		}
+		j := &unitJob{u: Unit{Side: st.side, Class: st.class, Prefix: st.prefix, PrefixKey: st.key, Repeat: rep, C17: c.plan.C17, Fresh: fresh}, batch: batch[off:]}
 		out := c.runUnit(j)
 		if out.err != "" {
 			c.fail("unit %s/%s prefix=%v: %s", st.side, st.class, st.prefix, out.err)
@@ -264,6 +284,8 @@ func (c *Coordinator) runBatch(st *stateNode, batch []string, fresh bool) ([]*Re
 				c.writeProbes += v
 			case "write_probe_bisections":
 				c.bisections += v
+			case "write_probe_failed_once_then_served":
+				c.transientWrites += v
 			default:
 				if strings.HasPrefix(k, "foreign_") {
 					c.foreign[strings.TrimPrefix(k, "foreign_")] += v
@@ -297,7 +319,7 @@ func (c *Coordinator) runBatch(st *stateNode, batch []string, fresh bool) ([]*Re
 				rq = &Req{}
 			}
 			r := &Result{I: off + i, Desc: batch[off+i], Status: -1, Poisoned: true, Req: rq,
-				Viol: []kernel.Violation{{Oracle: "died", Signature: Signature("died", d, rq, cause), Detail: fmt.Sprintf("the worker process died while serving %s (state class %s/%s, prefix %v)\n%s", batch[off+i], st.side, st.class, st.prefix, tailS(out.log, 2500))}}}
+				Viol: []kernel.Violation{{Oracle: "died", Signature: Signature("died", d, rq, cause), Detail: fmt.Sprintf("the worker process died while serving %s (state class %s/%s, prefix %v)\n%s", batch[off+i], st.side, st.class, st.prefix, clip(out.log, 3500))}}}
 			for k := 0; k < i; k++ {
 				if res[off+k] != nil && !res[off+k].Changed {
 					r.History = append(r.History, batch[off+k])
@@ -366,7 +388,7 @@ func (c *Coordinator) record(st *stateNode, r *Result, level int) {
 			f.classes[st.side+"/"+st.class]++
 			continue
 		}
-		f := &found{v: v, side: st.side, class: st.class, prefix: st.prefix, desc: r.Desc, history: r.History, req: r.Req, state: r.State, classes: map[string]int{st.side + "/" + st.class: 1}, died: v.Oracle == "died"}
+		f := &found{v: v, side: st.side, class: st.class, prefix: st.prefix, desc: r.Desc, history: r.History, req: r.Req, prefReqs: r.PrefixReqs, state: r.State, classes: map[string]int{st.side + "/" + st.class: 1}, died: v.Oracle == "died"}
 		c.viol[k] = f
 		c.violOrder = append(c.violOrder, k)
 	}
@@ -454,6 +476,14 @@ func (c *Coordinator) explore(frontier []*stateNode, alpha map[string][]string, 
 			c.seen[r.Key] = true
 			newStates++
 			np := append(append([]string{}, t.st.prefix...), r.Desc)
+			if !c.plan.ExpandAll {
+				rk := t.st.side + "/" + t.st.class + "|" + strings.Join(t.st.prefix, ",") + "|" + sigStem(mustDesc(r.Desc))
+				if c.repSeen[rk] {
+					c.notExpanded++
+					continue
+				}
+				c.repSeen[rk] = true
+			}
 			next = append(next, &stateNode{side: t.st.side, class: t.st.class, prefix: np, key: r.Key, depth: t.st.depth + 1})
 			if len(c.samples) < 10 && (len(np) >= 2 || len(c.samples) < 4) {
 				c.samples = append(c.samples, c.sampleOf(t.st, r))
@@ -487,6 +517,10 @@ func (c *Coordinator) sampleOf(st *stateNode, r *Result) map[string]interface{} 
 // Run is the whole check.
 func (c *Coordinator) Run() int {
 	p := c.plan
+	if err := CheckRouteTables(); err != nil {
+		fmt.Fprintf(os.Stderr, "HARNESS ERROR: route tables out of date: %v\n", err)
+		return 2
+	}
 	alphaFull := map[string][]string{}
 	alphaRed := map[string][]string{}
 	for _, s := range p.Sides {
@@ -540,13 +574,15 @@ func (c *Coordinator) Run() int {
 		for level := 1; level <= p.Depth && len(frontier) > 0 && !c.failed(); level++ {
 			var next []*stateNode
 			complete := true
-			if level == 1 {
+			if level == 1 && p.Repeat > 1 {
 				_, ok := c.explore(frontier, alphaRed, 0, 400) // pilot (its results are counted; states found again below)
 				c.perLevel = c.perLevel[:len(c.perLevel)-1]
 				c.execPerLevel = c.execPerLevel[:len(c.execPerLevel)-1]
 				complete = ok
 				// the pilot's states are re-found by the full level: forget them so that level 1 reports them
 				c.states = len(roots2keys(roots))
+				c.repSeen = map[string]bool{}
+				c.notExpanded = 0
 				c.seen = map[string]bool{}
 				for _, st := range roots {
 					c.seen[st.key] = true
@@ -557,7 +593,11 @@ func (c *Coordinator) Run() int {
 				if level > p.FullDepth {
 					a = alphaRed
 				}
-				next, complete = c.explore(frontier, a, level, p.Chunk)
+				ch := p.Chunk
+				if level > 1 {
+					ch = p.Chunk / 2
+				}
+				next, complete = c.explore(frontier, a, level, ch)
 			}
 			if !complete {
 				c.exhaustive = false
@@ -624,7 +664,7 @@ func (c *Coordinator) confirm(f *found) (ok bool, seq bool, note string) {
 		return hits, last
 	}
 	skip := []string{"-"} // non-nil: the repeat tail is never suppressed in a confirmation
-	u := Unit{Side: f.side, Class: f.class, Prefix: f.prefix, Repeat: c.plan.Repeat, C17: c.plan.C17, Fresh: true, SkipRepeat: skip}
+	u := Unit{Side: f.side, Class: f.class, Prefix: f.prefix, Repeat: c.repeatFor(len(f.prefix) + 1), C17: c.plan.C17, Fresh: true, SkipRepeat: skip}
 	n, last := try(u, []string{f.desc})
 	if n == 5 {
 		return true, false, ""
@@ -641,6 +681,13 @@ func (c *Coordinator) confirm(f *found) (ok bool, seq bool, note string) {
 		return false, false, fmt.Sprintf("alone %d/5 (%s), as a sequence of %d requests %d/5 (%s)", n, last, len(batch), n2, last2)
 	}
 	return false, false, fmt.Sprintf("alone %d/5 (%s)", n, last)
+}
+
+func (c *Coordinator) repeatFor(level int) int {
+	if level > c.plan.RepeatDepth {
+		return 1
+	}
+	return c.plan.Repeat
 }
 
 func mustDesc(s string) Desc { d, _ := ParseDesc(s); return d }
@@ -700,13 +747,13 @@ func (c *Coordinator) finish(alphaFull, alphaRed map[string][]string) int {
 		}
 		seq := cf.seq
 		path := []string{f.desc}
-		u := Unit{Side: f.side, Class: f.class, ClassEvents: ClassEvents(f.side, f.class), Prefix: f.prefix, Repeat: p.Repeat, C17: p.C17, Fresh: true, SkipRepeat: []string{"-"}}
+		u := Unit{Side: f.side, Class: f.class, ClassEvents: ClassEvents(f.side, f.class), Prefix: f.prefix, Repeat: c.repeatFor(len(f.prefix) + 1), C17: p.C17, Fresh: true, SkipRepeat: []string{"-"}}
 		if seq {
 			path = append(append([]string{}, f.history...), f.desc)
 			u.Fresh, u.Sequence = false, true
 		}
 		if f.req != nil {
-			u.Requests = []*Req{f.req}
+			u.Requests = append(append([]*Req{}, f.prefReqs...), f.req)
 		}
 		cfg, _ := json.Marshal(u)
 		rp := kernel.WriteReplay(&kernel.Replay{Property: p.Property, Engine: "E-E", Cfg: cfg, Path: path, Violation: f.v,
@@ -744,12 +791,13 @@ func (c *Coordinator) finish(alphaFull, alphaRed map[string][]string) int {
 	cov := map[string]interface{}{
 		"states": c.states, "transitions": c.transitions, "traces_validated_against_impl": c.transitions, "samples": c.samples, "exhaustive": c.exhaustive,
 		"evaluations": c.transitions, "distinct_nontrivial": c.states,
-		"rule":            "explicit breadth-first search over server states with the REST request alphabet itself as the transition relation, on the real routers (ServeHTTP on a recorder) around a real replica.Server on disk (replica side) and a real controller.Controller with real *remote.Remote backends over model replica nodes (controller side); seeded with the listed state classes; every request of the alphabet is sent once in every state of every level and then 7 more times in a row (repeat family); a state is distinct/non-trivial when its canonical key (dump of the server object + files / E-B key) is new; states reached by a violating request are not expanded",
+		"rule": "explicit breadth-first search over server states with the REST request alphabet itself as the transition relation, on the real routers (ServeHTTP on a recorder) around a real replica.Server on disk (replica side) and a real controller.Controller with real *remote.Remote backends over model replica nodes (controller side); seeded with the listed state classes; every request of the alphabet is sent once in every state of every level and then 7 more times in a row (repeat family); a state is distinct/non-trivial when its canonical key (dump of the server object + files / E-B key) is new; states reached by a violating request are not expanded",
+		"states_found_but_not_expanded_quick_tier_representatives_only": c.notExpanded, "expand_all_states": p.ExpandAll, "repeat_family_levels": p.RepeatDepth,
 		"depth_completed": c.depthCompleted, "max_depth": p.Depth, "full_alphabet_depth": p.FullDepth, "states_per_level": c.perLevel, "requests_per_level_without_repeats": c.execPerLevel,
 		"alphabet_full": lens(alphaFull), "alphabet_reduced": lens(alphaRed),
 		"requests_per_state_class": c.perClass, "routes": routes, "actions": actions, "body_classes": c.bodyClasses,
 		"repeat_family_runs": c.repeatRuns, "repeat_family_requests": c.repeatRequests, "repeat_family_suppressed_same_signature_as_reported_blocking": c.repSuppressed,
-		"status_codes_observed": statusOut, "probe_requests_answered_as_expected": c.probesOK, "write_read_probes": c.writeProbes, "write_probe_bisections": c.bisections,
+		"status_codes_observed": statusOut, "probe_requests_answered_as_expected": c.probesOK, "write_read_probes": c.writeProbes, "write_probe_bisections": c.bisections, "write_probe_failed_once_then_served_observation": c.transientWrites,
 		"worker_process_deaths": c.deaths, "instances_built": c.instances, "determinism_class_keys_identical": c.detOK,
 		"expectations_demanded": c.expectCount, "observations_ambiguous_not_violations": topN(c.obs, 60), "foreign_oracle_events_not_counted": c.foreign,
 		"violations_listed": vlist, "known_findings_hit": known, "violations_over_report_cap": overCap, "state_classes": classDoc(p),
@@ -856,7 +904,7 @@ func ReplayFile(path string) int {
 	hit := false
 	if out.died {
 		if out.diedAt >= 0 {
-			fmt.Printf("  the worker process DIED while serving %s\n%s\n", rp.Path[out.diedAt], indent(tailS(out.log, 2500)))
+			fmt.Printf("  the worker process DIED while serving %s\n%s\n", rp.Path[out.diedAt], indent(clip(out.log, 3500)))
 			hit = rp.Violation.Oracle == "died"
 			if hit {
 				fmt.Printf("VIOLATION property=%s replay=%s\n  oracle=died signature=%s\n", rp.Property, path, Signature("died", mustDesc(rp.Path[out.diedAt]), builtOrEmpty(rp.Path[out.diedAt]), deathCause(out.log)))
